@@ -39,7 +39,8 @@ func NewSession(c *Client, state SMState) (*Session, error) {
 	}
 
 	if s.err != nil {
-		return nil, NewConnError(s.err, true)
+		// The stream features could not be read (stream cut or garbled): this can be retried.
+		return nil, NewConnError(s.err, false)
 	}
 
 	if !c.transport.IsSecure() {
